@@ -194,12 +194,15 @@ def run_history(sc: dict) -> dict:
             except BaseException as ex:  # noqa
                 rec['exc'] = type(ex).__name__
             rec['t1'] = T()
-            rec['notdone'] = [t for t in unfinished() if t in before_call]  # promised: everything accepted before the call
+            # "returns only when the bus has nothing queued, pending or started": judged at the instant of the return, whenever the
+            # events were accepted (before or during the call)
+            rec['notdone'] = list(unfinished())
+            rec['notdone_before_call'] = [t for t in rec['notdone'] if t in before_call]
             rec['qsize'] = bus.event_queue.qsize() if bus.event_queue is not None else 0
-            if timeout is None and rec['qsize'] and 'exc' not in rec and st['ndisp'] == ndisp_at_call:
+            if timeout is None and rec['qsize'] and 'exc' not in rec:
                 viol.append(('C15.a', f'wait_until_idle() returned at t={T():g} while {rec["qsize"]} event(s) were still queued on the bus'))
             if timeout is None and rec['notdone']:
-                viol.append(('C15.a', f'wait_until_idle() returned at t={T():g} while events {rec["notdone"][:8]} accepted earlier were still {[state[t] for t in rec["notdone"][:8]]}'))
+                viol.append(('C15.a', f'wait_until_idle() returned at t={T():g} while events {rec["notdone"][:8]} (accepted before the call: {rec["notdone_before_call"][:8]}) were still {[state[t] for t in rec["notdone"][:8]]}'))
 
         idle_tasks = []
         for op in sc['ops']:
